@@ -345,6 +345,10 @@ def run(chk: Check) -> None:
     rule_u2(chk, ci)
     rule_u3(chk, ci)
     rule_u4_u5(chk, ci)
+    # U5 (values): the configured size limit reaches the handler as written (0 = frozen capsule)
+    from .c10 import config_value_fidelity
+
+    config_value_fidelity(chk, "U5", {"titan_max_upload_size": "max_upload_size"}, "uploads larger than the configured limit are accepted and change files")
     # U6: one upload-handler invocation per connection, so the stored bytes are the
     # first `size` bytes the client sent and not what a later read left behind
     from .c07 import rule_s2
